@@ -18,6 +18,8 @@ def gen(rng, tier):
             if kind == "count" and max(sum(r) for r in M) > 6: kind = c["kind"] = "sstable"
             D = [rng.randint(0, max(1, sum(M[v]))) if rng.random() < 0.85 else rng.randint(-2, sum(M[v]) + 2) for v in range(n)]
             if rng.random() < 0.5: D = [0 if rng.random() < 0.4 else x for x in D]
+            if kind == "sstable" and rng.random() < 0.25:       # debt inside V - {q} while q is poorer still (or ties with the poorest): never superstable, whatever q holds
+                D = [rng.randint(0, 1) for _ in range(n)]; D[rng.choice([v for v in range(n) if v != q])] = -rng.randint(1, 3); D[q] = min(D) - rng.choice([0, 1, 3])
             c.update({"G": G, "q": q, "D": D})
             if kind == "legal":
                 S = rng.sample(range(n), rng.randint(0, n))
